@@ -7,14 +7,15 @@ VAULT_TB = ("Model/Vault.lean is hand-written from x/vault/keeper/msg_server.go 
 VAULT_ASSUME = ["a rejected message leaves no writes (baseapp message atomicity; the harness delivers on a cache context written back only on success)",
                 "what a handler reads from other modules (ESM / breaker flags, oracle prices, accrued interest) is an input of the step, printed by the harness from the real chain state; the theorems hold for every value of these inputs",
                 "admissible product configuration (enforced at registration, x/asset/keeper/pairs_vault.go:153-165): fees in [0,1), debt floor >= 0, ceiling >= 0, positive asset decimals",
-                "auction settlement, emergency redemption (x/esm) and generation-1 liquidation are outside the vault model (the harness still checks the invariants on the real state)"]
+                "the vault-side bookkeeping of second-generation auction settlement is modelled as the code does it (finding D13); what the auction does with bidders' coins and the penalty is C10's model; emergency redemption (x/esm) and generation-1 liquidation are outside the vault model"]
 
 PROP = dict(
     title="CDP vault custody and published totals",
     lean_modules=["Comdex.Props.C01"],
     namespaces=["Comdex.C01"],
-    required_theorems=["Comdex.C01.custody_eq", "Comdex.C01.count_eq", "Comdex.C01.totals_eq", "Comdex.C01.inv_always",
-                       "Comdex.C01.rejected_no_change"],
+    required_theorems=["Comdex.C01.custody_eq", "Comdex.C01.count_eq", "Comdex.C01.totals_eq", "Comdex.C01.totals_coll_eq",
+                       "Comdex.C01.totals_minted_le", "Comdex.C01.totals_after_settlement", "Comdex.C01.totals_eq_settlement_counterexample",
+                       "Comdex.C01.invG_always", "Comdex.C01.inv_always", "Comdex.C01.rejected_no_change"],
     harness_tests=["TestC01"],
     monitors=["custody_eq", "count_eq", "totals_eq"],
     trusted_base=[KERNEL_TB, HARNESS_TB, DEC_TB, VAULT_TB],
@@ -30,9 +31,13 @@ META = dict(
     text="Kernel-checked: for every finite history of the eleven vault messages (plus unsolicited sends, outside funding, liquidation "
          "seizure) with arbitrary amounts, users, products and environment inputs, vault custody per denom = recorded collateral + "
          "unsolicited coins, the vault count = number of open vaults, and the per-product totals = sums over open + stable-mint + "
-         "awaiting-auction vaults (one inductive invariant preserved by every handler). The model is tied to the code by replaying generated "
+         "awaiting-auction vaults (one inductive invariant, relative to offsets that only auction settlement moves: custody, count and "
+         "collateral totals are proved for EVERY history incl. seizures and settlements; the minted total is proved <= the recorded principal "
+         "always and = in histories without settlement, with a kernel-checked counterexample for the equality after a settlement - finding D13). "
+         "The model is tied to the code by replaying generated "
          "histories on the real message router and comparing the full ledger projection after every message; the invariants are also "
          "evaluated by the Lean driver on the real chain state.",
     note="Trusted: Lean kernel; the model's faithfulness as far as the correspondence exercises it; message atomicity; admissible product "
-         "configuration. Auction settlement / ESM redemption are not in the model (partial): their effect on the totals is only monitored on real state.",
+         "configuration. Partial: minted-totals equality only without auction settlement (the code violates it: D13); ESM redemption and "
+         "generation-1 liquidation not modelled.",
 )
